@@ -88,7 +88,7 @@ func (p *ECache[PK, K, V]) GetOrCreate(pk PK) (V, error) {
 			continue
 		}
 
-		v, err := p.createNewF(pk)
+		v, err := p.callCreateNewF(pk, k, ch)
 
 		p.lock.Lock()
 		close(ch)
@@ -108,6 +108,25 @@ func (p *ECache[PK, K, V]) GetOrCreate(pk PK) (V, error) {
 
 		return v, err
 	}
+}
+
+// callCreateNewF calls createNewF for the in-flight creation registered under k with ch.
+// If createNewF panics, the creation is over as well: the registration is dropped and
+// the goroutines waiting on ch are released (they go around and retry), otherwise the
+// key would stay "in flight" for ever and every later GetOrCreate for it would block.
+func (p *ECache[PK, K, V]) callCreateNewF(pk PK, k K, ch chan struct{}) (V, error) {
+	returned := false
+	defer func() {
+		if !returned {
+			p.lock.Lock()
+			close(ch)
+			delete(p.inflight, k)
+			p.lock.Unlock()
+		}
+	}()
+	v, err := p.createNewF(pk)
+	returned = true
+	return v, err
 }
 
 // Remove deletes the element by key k. It returns true if the element
